@@ -598,8 +598,8 @@ def unit_precompute(fit_params, pred_params):
             ic, jc = fresh("i", I), fresh("j", I)
             rng = [0 <= ic, ic < N, 0 <= jc, jc < N]
             nan1, val1 = to_real(K1.sel(ic, jc))
-            E.oblige("C19.precompute.requested_pairs_are_cached", st.pc + rng + [wf(ic), wp(jc)], z3.And(z3.Not(nan1), val1 == KER(ic, jc)))
-            E.oblige("C19.precompute.other_pairs_untouched", st.pc + rng + [z3.Not(z3.And(wf(ic), wp(jc)))], eq_val(K1.sel(ic, jc), K0.sel(ic, jc)))
+            E.oblige("C19.precompute.requested_pairs_are_cached", st.pc + rng, z3.Implies(z3.And(wf(ic), wp(jc)), z3.And(z3.Not(nan1), val1 == KER(ic, jc))))
+            E.oblige("C19.precompute.other_pairs_untouched", st.pc + rng, z3.Implies(z3.Not(z3.And(wf(ic), wp(jc))), eq_val(K1.sel(ic, jc), K0.sel(ic, jc))))
             pk = [e_ for e_ in st.events if e_[0] == "call" and e_[1] == "pairwise_kernels"]
             for e_ in pk:
                 margs = list(e_[2][2:]) + [e_[3].get("metric")]
